@@ -1675,14 +1675,18 @@ def run(ctx, scale=1.0):
     for b in batches + pbatches:
         b['deadline'] = deadline
         b['stop'] = stop
+    _t0 = time.time()
     for st in common.pmap(eval_batch, batches):
         st.merge_into(ctx)
+    ctx.extra['wall_inproc_s'] = round(time.time() - _t0, 1)
+    _t0 = time.time()
     # process-mode runs fork real worker processes: not possible inside the (daemonic) pool workers
     if ctx.violations:
         ctx.count('process_batches_skipped_after_violation', len(pbatches))
     else:
         for st in runlib.fork_map(eval_batch, pbatches, procs=4):
             st.merge_into(ctx)
+    ctx.extra['wall_process_mode_s'] = round(time.time() - _t0, 1)
     done = sum(v for k, v in ctx.dist.items() if k in ('family:digraph', 'family:digraph-metachar-names'))
     ctx.extra['exhaustive_small_scope']['cases_run'] = done
     ctx.extra['exhaustive_small_scope']['not_run_budget_exhausted'] = ctx.dist.get('not_run_budget_exhausted', 0)
